@@ -7,7 +7,15 @@ VARIABLES l, nbad
 vars == <<l, nbad>>
 Chk(cond, msg) == IF cond THEN TRUE
                   ELSE (PrintT(<<"REJECT", l, Rec[l].id>>) /\ PrintT(<<"DETAIL", l, msg>>) /\ FALSE)
+IsIpKind(k) == k \in {"ipeq", "ipitem"}
+CheckIp(e) ==
+  LET x == ExpectedIp(e.kind, e.chars) IN
+  /\ Chk(e.obs.out # "panic", "parser panicked")
+  /\ x.ok # "unspec" =>
+       /\ Chk((e.obs.out = "ok") = (x.ok = "yes"), <<"verdict for", e.kind, "spec says", x.ok, "observed", e.obs.out>>)
+       /\ (e.obs.out = "ok" /\ x.ok = "yes") => Chk(e.obs.v = x.v, <<"value, expected", x.v, "observed", e.obs.v>>)
 Check(e) ==
+  IF IsIpKind(e.kind) THEN CheckIp(e) ELSE
   LET x == Expected(e.kind, e.chars) IN
   /\ Chk(e.obs.out # "panic", "parser panicked")
   /\ Chk((e.obs.out = "ok") = x.ok, <<"verdict for", e.kind, "spec says ok =", x.ok, "observed", e.obs.out>>)
